@@ -71,6 +71,39 @@ CHECKS = {
             "becomes memory) and F12 (integer-keyed buffers vs tiered time) are excluded by shape signatures.",
             "Opaque JSON tokens; one connection per input slot; persistent attributes in every reply (DESIGN 2.3).",
             "DESIGN.md 4/C03"),
+    "C06": ("exploration",
+            "exhaustive enumeration of small connection multigraphs x group placements + Hypothesis graphs; "
+            "independent graph oracle (networkx simple cycles, reference group tree)",
+            "Every multigraph over 2 simulators (quick) / 3 simulators with <= 3 edges (thorough) in all group "
+            "placements, plus generated graphs up to 5 simulators: run(until=0) must raise ScenarioError iff the "
+            "oracle finds an unresolved cycle, the named cycle must be real and unresolved, nobody may be stepped; "
+            "rejected scenarios are re-run with until>0.",
+            "Oracle's reading of 'stays inside the shared group' (closest common group); F05 (incomparable path "
+            "delays) excluded by a signature re-derived with the reference delay model.",
+            "DESIGN.md 4/C06"),
+    "C07": ("exploration",
+            "Hypothesis-generated scenarios x schedules; history monitor with cause sets per executed step",
+            "For every step(t, max_advance=m): m <= until, m == until without trigger inputs, and every cause of a "
+            "later step in (t, m] must be traceable (self-schedules and trigger outputs, transitively) to a step of "
+            "the simulator itself at or after t; schedules force ancestors to be in flight when m is computed.",
+            "Cause chains visible to the monitor; non-real-time runs.",
+            "DESIGN.md 4/C07"),
+    "C09": ("exploration",
+            "full grid of weak loops (size x tier x budget x max_loop_iterations x schedules) + Hypothesis scenarios; "
+            "differential against the same case with the guard far away",
+            "The unguarded run (max_loop_iterations=10^6) tells how many sub-steps each simulator needs per time; the "
+            "guarded run must raise SimulationError naming a simulator over the bound iff somebody needs more than "
+            "max, never execute more than max, and otherwise equal the unguarded run.",
+            "Two-sided count-based claim only for loops with one weak edge per cycle (grid); in generated scenarios "
+            "the bound is read per sub-tier (sub-step index from the reference monitor's labels).",
+            "DESIGN.md 4/C09"),
+    "C10": ("exploration",
+            "Hypothesis-generated scenarios x schedules with lazy_stepping=True; history monitor + metamorphic "
+            "control run with lazy_stepping=False",
+            "At every step() begin of a producer no direct consumer may be in a step, or have a known demanded step, "
+            "earlier than that time; the control run without lazy stepping must run ahead (non-triviality).",
+            "'Outstanding' = demanded according to replies observed so far.",
+            "DESIGN.md 4/C10"),
 }
 
 NOT_YET = {}
